@@ -26,6 +26,8 @@ UNIVERSES = {
     "name-from-arg": {"a": "{{{{{1}}}|a}}", "b": "1"},
     "empty": {"a": "", "b": "{{a}}{{a|}}"},
 }
+# directed probes (monitor only; the model has unbounded strings): value doubling through self-inclusion
+BLOWUP = [("A{{a|x}}B", {"a": "{{{1}}}{{a|{{{1}}}{{{1}}}}}"}), ("A{{a|k=x}}B", {"a": "{{{k}}}{{a|k={{{k}}}{{{k}}}}}"})]
 PAGES_FOR_TEMPLATE_ENUM = ["{{a}}", "{{a|b|1}}", "x{{b}}y{{a|1=b}}"]
 
 
@@ -42,8 +44,10 @@ def strings(alpha, maxlen):
 def gen_cases(rng, tier):
     cases = []
 
-    def add(page, db, limit, group):
-        cases.append({"id": len(cases), "page": page, "db": db, "limit": limit, "group": group})
+    def add(page, db, limit, group, nomodel=False):
+        cases.append({"id": len(cases), "page": page, "db": db, "limit": limit, "group": group, "nomodel": nomodel})
+    for pg, db in BLOWUP:
+        add(pg, db, 100, "directed-blowup", nomodel=True)
     l9 = 4 if tier == "quick" else 5
     pages9 = sorted(set(strings(A9, l9)))
     for uname, db in UNIVERSES.items():
@@ -64,8 +68,7 @@ def gen_cases(rng, tier):
             add(pg, {"a": t, "b": "{{a|b}}"}, 100, "template-text-A9<=%d" % l9)
     # small recursion limits on a sample / everything (thorough)
     small = [c for c in cases if ("{{" in c["page"])]
-    if tier == "quick":
-        small = rng.sample(small, min(len(small), 5000))
+    small = rng.sample(small, min(len(small), 5000 if tier == "quick" else 300000))
     for c in small:
         add(c["page"], c["db"], rng.choice([0, 1, 2, 3, 5, 8]), "small-limit")
     return cases
@@ -106,6 +109,8 @@ def run_model(exe, cases, real, nproc):
         last_db = None
         for c in part:
             r = real[c["id"]]
+            if c.get("nomodel"):
+                continue
             if "crash" in r or "harness_error" in r or r["page_node"].startswith("X") or any(v.startswith("X") for v in r["tpl_nodes"].values()):
                 continue
             key = json.dumps(c["db"], sort_keys=True)
@@ -168,10 +173,12 @@ def run(run, src):
             continue
         if r["exc"] is not None:
             stats["exc"] += 1
-            run.hit("exc:" + r["exc"].split(":")[0] + ":expand",
+            run.hit("exc:" + r["exc"].split(":")[0] + (":argument-doubling" if c["group"] == "directed-blowup" else ":expand"),
                     "expandTemplates raised %s on %r with templates %r (recursion_limit=%s)" % (r["exc"], c["page"], c["db"], c["limit"]), replay)
             continue
         stats["ok"] += 1
+        if c.get("nomodel"):
+            continue
         if c["id"] not in model:
             stats["unsupported-node"] += 1
             continue
@@ -190,7 +197,7 @@ def run(run, src):
                  "parameters, parameter named by parameter, name from argument, empty) x ALL page texts of <=%d tokens over "
                  "{{{ }} {{{ }}} | = a b 1} and of <=6 tokens over {{{ }} {{{ }}} | a}; ALL template texts of <=%d tokens under 3 calling pages; "
                  "(quick: the 6-token pages only on the mutual-recursion universe and only pages with both brace runs; thorough: on all universes); "
-                 "each also under recursion limits 0..8 (sampled in quick); non-trivial = page contains an opening and a closing brace run" % (l9, l9)),
+                 "a sample of them (5 000 quick / 300 000 thorough) also under recursion limits 0..8; non-trivial = page contains an opening and a closing brace run" % (l9, l9)),
         "trusted": ["hand-written Gallina model of evaluate.flatten / ArgumentList.get / insert_implicit_newlines / nodes.pyx (coq/C03/Model.v), tied by this run",
                     "templ.parser (its output is fed to the model)"],
         "assumptions": ["ArgumentList's incremental name scan is modelled statelessly (first matching argument): calls with duplicate or computed argument names are compared but excluded from the tie when they differ (counted)",
